@@ -140,12 +140,23 @@ func RunStream(sc *StreamScenario, kind, tmp string) (fail string) {
 	if err != nil {
 		return "Writer failed: " + err.Error()
 	}
+	// the caller owns its buffer: like io.Copy it reuses ONE buffer for every chunk and overwrites it as soon
+	// as Write has returned (io.Writer: "implementations must not retain p")
+	var shared []byte
 	for _, c := range sc.Chunks {
-		b := ChunkBytes(c)
+		src := ChunkBytes(c)
+		if cap(shared) < len(src) {
+			shared = make([]byte, len(src))
+		}
+		b := shared[:len(src)]
+		copy(b, src)
 		n, err := w.Write(b)
 		if err != nil || n != len(b) {
 			w.Close()
 			return fmt.Sprintf("Write(%s) = %d, %v", c, n, err)
+		}
+		for i := range b {
+			b[i] = 0xEE
 		}
 	}
 	if err := w.Close(); err != nil {
